@@ -72,7 +72,7 @@ def regen_pins():
     with build_lock():
         rc, out, _ = sh([sys.executable, os.path.join(VERIF, "tools", "pins.py"), os.path.join(COQ, "Pins.v")])
         if rc == 0:
-            # the translated part of the model (src/effector.rs -> Gen/EffectorGen.v)
+            # the translated parts of the model (src/effector.rs -> Gen/EffectorGen.v; four string functions -> Gen/StrFnGen.v)
             rc, out, _ = sh([sys.executable, os.path.join(VERIF, "tools", "rs2coq.py"), os.path.join(COQ, "Gen", "EffectorGen.v")])
     if rc != 0:
         raise RuntimeError("pins.py failed: " + out)
